@@ -85,6 +85,8 @@ package rapidcore
 
 //@ spec srvAccepts(s *Server, id string) bool = old(s.invokeCtx) != nil && id == old(s.invokeCtx.Token.InvokeID) && !old(s.invokeCtx.ReplySent)
 //@ spec srvBuffered(s *Server, id string) bool = srvAccepts(s, id) && old(s.invokeCtx.ReplyStream) != nil && !old(s.invokeCtx.Direct)
+//@ event ReplyHeaderAdded = call net/http.(Header).Add
+//@ event ReplyHeaderSet = call net/http.(Header).Set
 //@ spec noReplyWritten() bool = ghost(httpWrites) == old(ghost(httpWrites))
 
 //@ modset serverReply = s.runtimeState, all(InvokeContext.ReplySent), all(InvokeContext.Direct), directSend
@@ -102,6 +104,10 @@ package rapidcore
 //@   ensures [C02: a-body-that-breaks-off-is-reported-as-truncated] srvBuffered(s, invokeID) && readFails(payload) ==> typeis(r0, *interop.ErrTruncatedResponse)
 //@   ensures [oversize] srvBuffered(s, invokeID) && !readFails(payload) && readerLen(payload) > interop.MaxPayloadSize ==> typeis(r0, *interop.ErrorResponseTooLarge) && r0.(*interop.ErrorResponseTooLarge).ResponseSize == readerLen(payload) && r0.(*interop.ErrorResponseTooLarge).MaxResponseSize == interop.MaxPayloadSize
 //@   ensures [oversize-no-effect] srvBuffered(s, invokeID) && !readFails(payload) && readerLen(payload) > interop.MaxPayloadSize ==> noReplyWritten() && !s.invokeCtx.ReplySent && unchanged(s.invokeCtx)
+// C14 ("the caller instead receives a Function.ResponseSizeTooLarge error") / C02 ("a refused submission has no effect on what any
+// caller receives"): a submission that is refused has put nothing on the reply stream, headers included (the function's content
+// type would otherwise precede the error's own)
+//@   ensures [a-refused-buffered-submission-adds-no-header-to-the-reply] (old(s.invokeCtx) == nil || !old(s.invokeCtx.Direct)) && r0 != nil && !(srvBuffered(s, invokeID) && !readFails(payload) && readerLen(payload) <= interop.MaxPayloadSize) ==> delta(ReplyHeaderAdded) == 0 && delta(ReplyHeaderSet) == 0
 //@   ensures [deliver] srvBuffered(s, invokeID) && !readFails(payload) && readerLen(payload) <= interop.MaxPayloadSize ==> ghost(httpWrites) == old(ghost(httpWrites)) + 1 && ghost(httpLastContent) == readerContent(payload) && ghost(httpLastLen) == readerLen(payload) && ghost(httpLastWriter) == ref(old(s.invokeCtx.ReplyStream))
 //@   ensures [deliver-marks-sent] srvBuffered(s, invokeID) && !readFails(payload) && readerLen(payload) <= interop.MaxPayloadSize && r0 == nil ==> s.invokeCtx.ReplySent && unchanged(s.invokeCtx)
 //@   ensures [sent-only-on-success] srvAccepts(s, invokeID) && !old(s.invokeCtx.Direct) && r0 != nil ==> !s.invokeCtx.ReplySent
